@@ -18,6 +18,9 @@ What is modelled and what is abstracted
 * `visibility` is an `Option` of a canonical key string such that `is_same_visibility a b` iff the keys are
   equal, the key of `VisibilityKind::Inherited` being the empty string.  Top-level trees always
   have `Some`, nested trees and `from_path` trees have `None`.
+* `normalize` keeps a nested element with an empty path when it carries a comment; nested comments
+  are not located, so the model removes every nested element with an empty path (exact for trees
+  without a comment on such an element).
 * `attrs` is an `Option` of the rendered attribute text (`None` = no attributes; `Some` is never
   empty on the paths that reach these functions, see `from_ast_with_normalization`).
 * A Rust panic is `Except.error .panic`.  `Err.fuel` is the out-of-fuel answer of the two
@@ -180,9 +183,15 @@ def normPath (cmp : Tree → Tree → Ordering) : Nat → Bool → Bool → List
             | some t => normPath cmp fuel hasAttrs hasVis (rest ++ t.path)
             | none =>
               -- "Recursively normalize elements of a list use (including sorting the list)." (:626-633)
+              -- an element that imports nothing (`foo::{}`, normalised to the empty path) is removed;
+              -- when one was, the whole tree is normalised again (the list may now be empty or sole)
               match mapE (fun t => (normPath cmp fuel false false t.path).map Tree.mk) l with
               | .error e => .error e
-              | .ok l => .ok (rest ++ [.list (RF.Sort.stableSort cmp l)])
+              | .ok l' =>
+                let kept := l'.filter (fun t => !t.path.isEmpty)
+                let sorted := RF.Sort.stableSort cmp kept
+                if kept.length < l.length then normPath cmp fuel hasAttrs hasVis (rest ++ [.list sorted])
+                else .ok (rest ++ [.list sorted])
           | _ => .ok (rest ++ [last])
 
 /-- `UseTree::normalize` on a top-level item (`from_ast_with_normalization`, imports.rs:392-414). -/
